@@ -59,6 +59,9 @@ type SimChain struct {
 	// spent by a block that arrives while its announcement is being handled
 	// was validated against this answer.
 	saidUnspent map[wire.OutPoint]bool
+	// injected backend fault: GetUtxo fails with an I/O error
+	failUtxo   bool
+	utxoFailed int
 }
 
 // SaidUnspent: GetUtxo answered "unspent" for op since the last ClearAnswers.
@@ -282,12 +285,26 @@ func (c *SimChain) GetBestBlock() (*chainhash.Hash, int32, error) {
 	return &hash, int32(h), nil
 }
 
+// FailUtxo turns the injected GetUtxo I/O error on or off and returns how
+// many calls failed since it was turned on.
+func (c *SimChain) FailUtxo(on bool) int {
+	c.mu.Lock()
+	defer c.mu.Unlock()
+	n := c.utxoFailed
+	c.failUtxo, c.utxoFailed = on, 0
+	return n
+}
+
 func (c *SimChain) GetUtxo(op *wire.OutPoint, _ []byte, _ uint32,
 	_ <-chan struct{}) (*wire.TxOut, error) {
 
 	c.mu.Lock()
 	defer c.mu.Unlock()
 	c.calls++
+	if c.failUtxo {
+		c.utxoFailed++
+		return nil, errors.New("rpc: connection reset by peer (injected)")
+	}
 	out, ok := c.outputs[*op]
 	if !ok {
 		return nil, btcwallet.ErrOutputSpent
